@@ -118,6 +118,9 @@ def _complete_one(var, kind, data, env):
         elif kind == 'expit':
             v = ir.evaluate([data], env)[0]
             env[var.val] = 1.0 / (1.0 + math.exp(-v))
+        elif kind == 'root':
+            v = ir.evaluate([data[0]], env)[0]
+            env[var.val] = max(v, 0.0) ** (1.0 / data[1])
         elif kind == 'recip':
             v = ir.evaluate([data], env)[0]
             env[var.val] = 1.0 / v if v != 0 else 0.0
